@@ -9,7 +9,15 @@
 //
 //	{"begin":k}                       before round k
 //	{"fail":{...}}                    a call whose result differs from its solo result
+//	{"hang":{...}}                    no call completed for hangAfter while goroutines were running: where they block
+//	                                  (the worker then exits with status 4)
 //	{"end":rounds,"calls":n}          after the last round
+//
+// Every fortieth round (round 0 first) is a warm-versus-cold round: goroutines keep calling on a type that is already
+// in the cache while others make the first use of several hundred distinct types (a lock upgrade / a nested
+// read lock / a writer-preference deadlock needs a miss arriving during a hit). Every fortieth round (round 4 first)
+// is a deep-document round: several goroutines decode, at the same time, documents nested a few thousand levels
+// deep on a recursive type, each inside the nesting limit on its own (per-call state kept on the shared codec).
 package main
 
 import (
@@ -19,7 +27,13 @@ import (
 	"fmt"
 	"net/url"
 	"os"
+	"regexp"
+	"runtime"
+	"sort"
+	"strings"
 	"sync"
+	"sync/atomic"
+	"time"
 
 	"github.com/pentops/j5/lib/j5codec"
 	"google.golang.org/protobuf/proto"
@@ -45,7 +59,77 @@ func (o outcome) same(p outcome) bool {
 	return o.Err == p.Err && o.Panic == p.Panic && o.Out == p.Out
 }
 
+// progress counts completed calls; running is non-zero while the goroutines of a round run
+var progress, running atomic.Int64
+var where atomic.Value // what is running, for the hang report
+
+const hangAfter = 6 * time.Second
+
+var goroutineHead = regexp.MustCompile(`^goroutine (\d+) \[([^\]]*)\]:`)
+
+// blockedSummary condenses a full goroutine dump: per (wait reason, innermost pentops/j5 frame) the number of goroutines.
+func blockedSummary(dump string) []string {
+	count := map[string]int{}
+	for _, g := range strings.Split(dump, "\n\n") {
+		lines := strings.Split(g, "\n")
+		m := goroutineHead.FindStringSubmatch(lines[0])
+		if m == nil {
+			continue
+		}
+		reason := strings.Split(m[2], ",")[0]
+		frame := ""
+		for i := 1; i+1 < len(lines); i += 2 {
+			if strings.Contains(lines[i], "github.com/pentops/j5/") {
+				fn := lines[i]
+				if j := strings.LastIndex(fn, "("); j > 0 {
+					fn = fn[:j]
+				}
+				loc := strings.TrimSpace(lines[i+1])
+				if j := strings.Index(loc, " +0x"); j > 0 {
+					loc = loc[:j]
+				}
+				if j := strings.LastIndex(loc, "/"); j >= 0 {
+					loc = loc[j+1:]
+				}
+				frame = strings.TrimPrefix(fn, "github.com/pentops/j5/") + " " + loc
+				break
+			}
+		}
+		if frame == "" || reason == "running" || reason == "runnable" {
+			continue
+		}
+		count[reason+" in "+frame]++
+	}
+	var out []string
+	for k, n := range count {
+		out = append(out, fmt.Sprintf("%d x %s", n, k))
+	}
+	sort.Strings(out)
+	return out
+}
+
+func watchdog(enc *json.Encoder) {
+	last, since := progress.Load(), time.Now()
+	for {
+		time.Sleep(200 * time.Millisecond)
+		p := progress.Load()
+		if p != last || running.Load() == 0 {
+			last, since = p, time.Now()
+			continue
+		}
+		if time.Since(since) > hangAfter {
+			buf := make([]byte, 4<<20)
+			buf = buf[:runtime.Stack(buf, true)]
+			w, _ := where.Load().(map[string]any)
+			_ = enc.Encode(map[string]any{"hang": map[string]any{"running": w, "completed_calls": p, "blocked": blockedSummary(string(buf)),
+				"no_call_completed_for": hangAfter.String()}})
+			os.Exit(4)
+		}
+	}
+}
+
 func doCall(cd *j5codec.Codec, b *cdesc.Built, enc map[int]string, c call) (o outcome) {
+	defer progress.Add(1)
 	defer func() {
 		if r := recover(); r != nil {
 			o = outcome{Panic: fmt.Sprint(r)}
@@ -85,6 +169,156 @@ func doCall(cd *j5codec.Codec, b *cdesc.Built, enc map[int]string, c call) (o ou
 	}
 }
 
+// goAll runs the bodies as goroutines released together and waits for them; the watchdog is armed meanwhile.
+func goAll(desc map[string]any, bodies []func()) {
+	where.Store(desc)
+	gate := make(chan struct{})
+	var wg sync.WaitGroup
+	for _, body := range bodies {
+		body := body
+		wg.Add(1)
+		go func() {
+			defer wg.Done()
+			<-gate
+			body()
+		}()
+	}
+	running.Store(1)
+	close(gate)
+	wg.Wait()
+	running.Store(0)
+}
+
+// warmCold: readers keep encoding a warm type while writers make the first use of nCold distinct types, all on one codec.
+func warmCold(enc *json.Encoder, seed uint64, k int, r *vh.Rand) int {
+	nCold := r.Range(150, 300)
+	u := &cdesc.Universe{Tag: fmt.Sprintf("r%dx%dwc", seed, k)}
+	u.Nodes = append(u.Nodes, cdesc.Node{Kind: cdesc.KMsg, Refs: []int{1}, Shape: []int{cdesc.FSingle}}, cdesc.Node{Kind: cdesc.KMsg, Refs: []int{}, Shape: []int{}})
+	for i := 0; i < nCold; i++ {
+		nd := cdesc.Node{Kind: cdesc.KMsg, Refs: []int{}, Shape: []int{}}
+		if i%3 == 0 {
+			nd.Refs, nd.Shape = []int{1}, []int{cdesc.FSingle}
+		}
+		u.Nodes = append(u.Nodes, nd)
+	}
+	b, err := u.Build()
+	if err != nil {
+		fmt.Fprintln(os.Stderr, "build:", err)
+		os.Exit(3)
+	}
+	solo := make([]outcome, len(u.Nodes))
+	for i := range u.Nodes {
+		solo[i] = doCall(j5codec.NewCodec(), b, nil, call{Kind: 1, Node: i})
+	}
+	shared := j5codec.NewCodec()
+	if o := doCall(shared, b, nil, call{Kind: 1, Node: 0}); !o.same(solo[0]) { // warm it
+		_ = enc.Encode(map[string]any{"fail": map[string]any{"round": k, "mode": "warm-cold", "call": call{Kind: 1, Node: 0}, "got": o, "want": solo[0]}})
+	}
+	nReaders, nWriters := r.Range(4, 8), r.Range(2, 3)
+	var done atomic.Int64
+	type miss struct {
+		g    int
+		c    call
+		got  outcome
+		want outcome
+	}
+	misses := make([][]miss, nReaders+nWriters)
+	var bodies []func()
+	for g := 0; g < nReaders; g++ {
+		g := g
+		bodies = append(bodies, func() {
+			for it := 0; it < 200000 && done.Load() < int64(nWriters); it++ {
+				c := call{Kind: 1, Node: it % 2} // both warm after the first call
+				if o := doCall(shared, b, nil, c); !o.same(solo[c.Node]) && len(misses[g]) < 2 {
+					misses[g] = append(misses[g], miss{g, c, o, solo[c.Node]})
+				}
+			}
+		})
+	}
+	for w := 0; w < nWriters; w++ {
+		w := w
+		bodies = append(bodies, func() {
+			defer done.Add(1)
+			for i := 2 + w; i < len(u.Nodes); i += nWriters {
+				c := call{Kind: 1, Node: i}
+				if o := doCall(shared, b, nil, c); !o.same(solo[i]) && len(misses[nReaders+w]) < 2 {
+					misses[nReaders+w] = append(misses[nReaders+w], miss{nReaders + w, c, o, solo[i]})
+				}
+			}
+		})
+	}
+	before := progress.Load()
+	goAll(map[string]any{"round": k, "mode": "warm-cold", "readers_on_warm_types": nReaders, "writers_first_use": nWriters, "cold_types": nCold,
+		"how": "worker -seed S -start ROUND -rounds ROUND+1"}, bodies)
+	for _, ml := range misses {
+		for _, m := range ml {
+			_ = enc.Encode(map[string]any{"fail": map[string]any{"round": k, "mode": "warm-cold", "goroutine": m.g, "call": m.c, "got": m.got, "want": m.want,
+				"readers_on_warm_types": nReaders, "writers_first_use": nWriters, "cold_types": nCold}})
+		}
+	}
+	return int(progress.Load() - before)
+}
+
+// deepDecode: a recursive type; documents nested `depth` levels, each inside the decoder's nesting limit; several
+// goroutines decode them at the same time on one codec (also the package-level Global), each result compared with the solo result.
+func deepDecode(enc *json.Encoder, seed uint64, k int, r *vh.Rand) int {
+	u := &cdesc.Universe{Tag: fmt.Sprintf("r%dx%ddd", seed, k), Nodes: []cdesc.Node{{Kind: cdesc.KMsg, Refs: []int{0}, Shape: []int{cdesc.FSingle}}}}
+	b, err := u.Build()
+	if err != nil {
+		fmt.Fprintln(os.Stderr, "build:", err)
+		os.Exit(3)
+	}
+	ng := r.Range(4, 5)
+	depth := r.Range(2600, 3600)
+	doc := strings.Repeat(`{"r0":`, depth) + `{"label":"x"}` + strings.Repeat("}", depth)
+	docs := map[int]string{0: doc}
+	c := call{Kind: 2, Node: 0}
+	want := doCall(j5codec.NewCodec(), b, docs, c)
+	if want.Err != "" || want.Panic != "" {
+		fmt.Fprintf(os.Stderr, "solo decode of a document nested %d levels (limit 10000) fails: %+v\n", depth, want)
+		os.Exit(3)
+	}
+	shared, mode := j5codec.NewCodec(), "deep-decode"
+	if k%80 == 44 {
+		shared, mode = j5codec.Global, "deep-decode-global"
+	}
+	type miss struct {
+		g, it int
+		got   outcome
+	}
+	misses := make([][]miss, ng)
+	var bodies []func()
+	const iters = 2
+	for g := 0; g < ng; g++ {
+		g := g
+		bodies = append(bodies, func() {
+			for it := 0; it < iters; it++ {
+				if o := doCall(shared, b, docs, c); !o.same(want) && len(misses[g]) < 1 {
+					misses[g] = append(misses[g], miss{g, it, o})
+				}
+			}
+		})
+	}
+	before := progress.Load()
+	goAll(map[string]any{"round": k, "mode": mode, "goroutines": ng, "nesting": depth}, bodies)
+	short := func(o outcome) outcome {
+		if len(o.Out) > 80 {
+			o.Out = o.Out[:80] + "..."
+		}
+		if len(o.Err) > 200 {
+			o.Err = o.Err[:60] + " ... " + o.Err[len(o.Err)-120:]
+		}
+		return o
+	}
+	for _, ml := range misses {
+		for _, m := range ml {
+			_ = enc.Encode(map[string]any{"fail": map[string]any{"round": k, "mode": mode, "universe": u, "goroutines": ng, "iterations": iters,
+				"document": fmt.Sprintf("%d x {\"r0\": around {\"label\":\"x\"}", depth), "goroutine": m.g, "iteration": m.it, "call": c, "got": short(m.got), "want": short(want)}})
+		}
+	}
+	return int(progress.Load() - before)
+}
+
 func main() {
 	seed := flag.Uint64("seed", 1, "seed")
 	start := flag.Int("start", 0, "first round")
@@ -92,10 +326,19 @@ func main() {
 	show := flag.Bool("show", false, "print the solo outcomes of the calls that carry an Any (stderr)")
 	flag.Parse()
 	enc := json.NewEncoder(os.Stdout)
+	go watchdog(enc)
 	total := 0
 	for k := *start; k < *rounds; k++ {
 		_ = enc.Encode(map[string]any{"begin": k})
 		r := vh.NewRand(*seed).Fork(fmt.Sprintf("race-round-%d", k))
+		switch k % 40 {
+		case 0:
+			total += warmCold(enc, *seed, k, r)
+			continue
+		case 4:
+			total += deepDecode(enc, *seed, k, r)
+			continue
+		}
 		u, why := cdesc.GenUniverse(r, fmt.Sprintf("r%dx%d", *seed, k))
 		if k%3 == 1 {
 			u, why = cdesc.GenRich(r, fmt.Sprintf("r%dx%d", *seed, k))
@@ -178,8 +421,11 @@ func main() {
 				}
 			}()
 		}
+		where.Store(map[string]any{"round": k, "mode": mode, "shape": why, "universe": u, "goroutines": ng, "calls": calls})
+		running.Store(1)
 		close(gate)
 		wg.Wait()
+		running.Store(0)
 		for g := range calls {
 			for i, c := range calls[g] {
 				total++
@@ -247,8 +493,11 @@ func main() {
 					}
 				}()
 			}
+			where.Store(map[string]any{"round": k, "mode": "storm", "shape": why, "universe": u, "goroutines": ngs, "iterations": iters})
+			running.Store(1)
 			close(gate)
 			wg.Wait()
+			running.Store(0)
 			total += ngs * iters
 			for _, ml := range misses {
 				for _, m := range ml {
